@@ -427,7 +427,7 @@ def c05_t1(ctx, f):
                               "%s/%s lengths %d..=%d" % (mode, l, lo, hi),
                               "version chosen for these lengths is not the smallest one whose capacity holds them",
                               expected=ev, found=fv,
-                              sample="%s/%s: %d..=%d -> %s" % (mode, l, lo, hi if hi < USIZE_MAX else "usize::MAX", fv))
+                              sample="%s/%s: %s..=%s -> %s" % (mode, l, lo, hi if hi < USIZE_MAX else "usize::MAX", fv))
                 if exp[i][1] <= found[j][1]:
                     i += 1
                     if exp[i - 1][1] == found[j][1]:
